@@ -434,6 +434,7 @@ func init() {
 		Stub:        []string{"net.Listener (SimListener)", "net.Conn (SimConn)", "Backend/Session (SimBackend; returns the reader's error like io.ReadAll-based backends)", "clock (synctest)", "SMTP client (raw driver)"},
 		Assumptions: []string{"message size is judged on messages without dot-stuffing, where wire size and backend size coincide", "the backend propagates a reader error as its verdict"},
 		Required:    []string{"size_N+0", "size_N+1", "size_N-1", "size_far_above", "via_bdat", "via_data", "size_parameter", "earlier_transaction_BDAT_completed", "earlier_transaction_chunk_then_RSET", "earlier_transaction_BDAT_refused_for_size", "earlier_transaction_DATA_completed", "backend_reads_on_after_timeout_inside_message", "backend_copies_with_io.Copy", "size_parameter_with_leading_zeros"},
+		Instr:       true,
 		QuickRuns:   200000, ThoroughRuns: 4000000,
 	})
 }
